@@ -8,6 +8,12 @@ evaluations by p, keep a group iff it holds exactly one evaluation of every l-le
 by n) and compared with the plain-list state *after* the call: evaluations kept, their lengths, every remaining
 cell, and the three parameter tables (exactly the referenced ids, rows unchanged).  raw_learners is recomputed
 from the interaction rows in Fraction arithmetic; moving_average is compared with its textbook definitions.
+
+Column NAMES are part of the input space: in ~40% of the cases parameter columns carry names that contain / start with /
+end with / are a prefix of / differ only by case from the names coba itself tests for ('index', 'reward', the three ids,
+'full_name', 'family', the 'x' column of raw_learners, the second y column), and l / p / x name these columns.  The reference
+only ever looks columns up by exact name, so a name must not change what is computed.  A violation in such a case is run
+again with plain names: when it disappears the signature names the role and the special name (<op>/x-name~index/mode=...).
 """
 from fractions import Fraction
 
@@ -18,7 +24,8 @@ RULE  = ("seeded Results (1-6 environments, 1-5 learners, 1-3 evaluators; missin
          "through Result(rows), Result(Tables), TransactionResult or a real Experiment, then a seeded chain of "
          "where / where_best / where_fin(n,l,p) / raw_learners(x,y,l,p,span) on the real object; one case = one "
          "oracle evaluation of where_fin, raw_learners or moving_average; distinct & non-trivial = distinct (operation, "
-         "sizes, missing pattern, length pattern, l/p/n/x/span class, value kinds, chain prefix) with >= 2 learners and "
+         "sizes, missing pattern, length pattern, l/p/n/x/span class, value kinds, chain prefix, (role, special name, relation) of "
+         "parameter columns named like 'index'/'reward'/ids/'full_name' (shuffle_index, INDEX, learner, reward2, ...)) with >= 2 learners and "
          ">= 2 environments holding interactions (moving_average: distinct (length class, span class, weighting))")
 PLAN  = {"quick":    {"shards": 16, "cases": 16000,  "timeout": 600,  "budget_s": 80},
          "thorough": {"shards": 16, "cases": 200000, "timeout": 3000, "budget_s": 840}}
@@ -38,7 +45,9 @@ ASSUMPTIONS = [
     "when n=k and a group that is complete on the input holds an evaluation shorter than k, the statement does not say whether "
     "the rest of that group survives: only the weak reading is asserted there (survivors are input evaluations of length >= k "
     "cut to k, and every surviving p-group holds exactly one evaluation for every level that survives)",
-    "parameter column names are distinct across the environment / learner / evaluator tables; NaN is not used as a parameter "
+    "parameter column names are distinct across the environment / learner / evaluator tables and never EQUAL a name coba reserves "
+    "(index, reward, extra, the ids, full_name, x) -- they may contain, extend, abbreviate or re-case such a name; x=['index'] "
+    "(the interaction index inside a list) is not asserted; NaN is not used as a parameter "
     "value; the l-values never equal the string 'x'; full_name labels are read from the real Result (only their being "
     "one-to-one with learner_id is relied upon)",
     "where / where_best inside a chain are only checked for the invariants (subset of evaluations, unchanged cells, referential "
